@@ -1,5 +1,5 @@
-(* s_c14.ml — streams for C14 (write::FrameTable). Model side: extracted CfiWr; the expected column of the
-   oracle streams comes from a small reference CFA machine written here (independent of the model). *)
+(* s_c14.ml — streams for C14 (write::FrameTable). Model side: extracted CfiWr; the unwind rows in the expected
+   column of c14.rows (and of the regression streams) come from the extracted script machine CfaScriptSpec. *)
 open Conv
 open Streams
 module W = CfiWr
@@ -102,96 +102,37 @@ let sharp_expected s dbg =
         (if canon = [] then "-" else String.concat "," (List.map string_of_int canon)))
     (run_model dbg s)
 
-(* ---------------- reference CFA machine (oracle) ---------------- *)
-type cfa = CReg of int * Z.t | CExpr of int list
-type rule = RUndef | RSame | ROff of int | RVal of int | RReg of int | RExpr of int list | RValExpr of int list | RConst of int
-type st = { cfa : cfa; rules : (int * rule) list; args : int }
-exception Cfi_err of string
+(* ---------------- the unwind rows: the EXTRACTED script machine (Spec/CfaScriptSpec.v) ----------------
+   Property C14 (rows_by_script_areas / table_rows_read_by_reader) proves that the reader models over the writer
+   model's bytes return exactly script_rows_lim; here the same Coq function, extracted, gives the expected rows for
+   gimli's own reader over gimli's own bytes. Storage limits: UnwindContext::new() = StoreOnHeap (4 rows, 192 rules). *)
+module X = CfaScriptSpec
+let heap_caps = { CfaSpec.max_stack = Some (nat_of_int 4); CfaSpec.max_rules = Some (nat_of_int 192) }
 
-let set_rule st r v = { st with rules = (r, v) :: List.remove_assoc r st.rules }
-let clear_rule st r = { st with rules = List.remove_assoc r st.rules }
+let show_xrule = function
+  | X.XUndefined -> "u" | X.XSameValue -> "s"
+  | X.XOffset o -> "o" ^ string_of_cz o | X.XValOffset o -> "v" ^ string_of_cz o
+  | X.XRegister r -> "r" ^ string_of_n r
+  | X.XExpression e -> "e" ^ hex_of_bytes e | X.XValExpression e -> "x" ^ hex_of_bytes e
+  | X.XConstant c -> "c" ^ string_of_n c
+let show_xrow (r : X.xrow) =
+  let cfa = match r.X.xr_cfa with
+    | X.XCfaRegOff (g, o) -> Printf.sprintf "r%s+%s" (string_of_n g) (string_of_cz o)
+    | X.XCfaExpr e -> "e" ^ hex_of_bytes e in
+  let rules = List.sort compare (List.map (fun (g, v) -> (int_of_n g, show_xrule v)) r.X.xr_rules) in
+  let rs = if rules = [] then "-" else String.concat "," (List.map (fun (g, v) -> Printf.sprintf "%d=%s" g v) rules) in
+  Printf.sprintf "%s-%s/%s/%s/%s" (string_of_n r.X.xr_start) (string_of_n r.X.xr_end) cfa rs (string_of_n r.X.xr_args)
 
-(* one instruction; init = None while running the CIE's initial instructions *)
-let step ~vendor ~(init : (int * rule) list option) ~cap (st, stack) = function
-  | ICfa (r, o) -> ({ st with cfa = CReg (r, Z.of_int o) }, stack)
-  | ICfaRegister r ->
-      (match st.cfa with CReg (_, o) -> ({ st with cfa = CReg (r, o) }, stack)
-                       | CExpr _ -> raise (Cfi_err "CfiInstructionInInvalidContext"))
-  | ICfaOffset o ->
-      (match st.cfa with CReg (r, _) -> ({ st with cfa = CReg (r, Z.of_int o) }, stack)
-                       | CExpr _ -> raise (Cfi_err "CfiInstructionInInvalidContext"))
-  | ICfaExpr e -> ({ st with cfa = CExpr e }, stack)
-  | IRestore r ->
-      (match init with
-       | None -> raise (Cfi_err "CfiInstructionInInvalidContext")
-       | Some rules ->
-           (match List.assoc_opt r rules with
-            | None -> (clear_rule st r, stack)
-            | Some v -> (set_rule st r v, stack)))
-  | IUndefined r -> (set_rule st r RUndef, stack)
-  | ISameValue r -> (set_rule st r RSame, stack)
-  | IOffset (r, o) -> (set_rule st r (ROff o), stack)
-  | IValOffset (r, o) -> (set_rule st r (RVal o), stack)
-  | IRegister (a, b) -> (set_rule st a (RReg b), stack)
-  | IExpr (r, e) -> (set_rule st r (RExpr e), stack)
-  | IValExpr (r, e) -> (set_rule st r (RValExpr e), stack)
-  | IRemember ->
-      if List.length stack + 1 >= cap then raise (Cfi_err "StackFull") else (st, st :: stack)
-  | IRestoreState ->
-      (match stack with [] -> raise (Cfi_err "PopWithEmptyStack") | s :: r -> (s, r))
-  | IArgsSize n -> ({ st with args = n }, stack)
-  | INegateRa ->
-      if vendor <> 1 then raise (Cfi_err "UnknownCallFrameInstruction") else
-      let v = match List.assoc_opt 34 st.rules with
-        | None -> 0 | Some (RConst v) -> v | Some _ -> raise (Cfi_err "CfiInstructionInInvalidContext") in
-      (set_rule st 34 (RConst (v lxor 1)), stack)
-
-let show_rule = function
-  | RUndef -> "u" | RSame -> "s" | ROff o -> Printf.sprintf "o%d" o | RVal o -> Printf.sprintf "v%d" o
-  | RReg r -> Printf.sprintf "r%d" r | RExpr e -> "e" ^ hex_of_ints e | RValExpr e -> "x" ^ hex_of_ints e
-  | RConst c -> Printf.sprintf "c%d" c
-let show_row s e st =
-  let cfa = match st.cfa with CReg (r, o) -> Printf.sprintf "r%d+%s" r (Z.to_string o) | CExpr e -> "e" ^ hex_of_ints e in
-  let rules = List.sort compare st.rules in
-  let rs = if rules = [] then "-" else
-      String.concat "," (List.map (fun (r, v) -> Printf.sprintf "%d=%s" r (show_rule v)) rules) in
-  Printf.sprintf "%s-%s/%s/%s/%d" (Z.to_string s) (Z.to_string e) cfa rs st.args
-
-(* gimli's row stack holds 4 rows: the current one, the remembered ones, and a copy of the initial rules
-   when the CIE leaves two or more of them *)
 let rows_of ~vendor (c : cie) (addr : Z.t) (f : fde) : string =
-  let mask = Z.pred (Z.shift_left Z.one (8 * c.asz)) in
-  let st0 = { cfa = CReg (0, Z.zero); rules = []; args = 0 } in
-  match
-    (try
-       let (st, stack) = List.fold_left (fun acc i -> step ~vendor ~init:None ~cap:4 acc i) (st0, []) c.cinsns in
-       let extra = if List.length st.rules >= 2 then 1 else 0 in
-       if extra = 1 && List.length stack + 1 >= 4 then raise (Cfi_err "StackFull");
-       Ok (st, stack, extra)
-     with Cfi_err e -> Error e)
-  with
-  | Error e -> "!" ^ e
-  | Ok (st, stack, extra) ->
-      let init = Some st.rules in
-      let cap = 4 - extra in
-      let rows = ref [] in
-      let loc = ref 0 in
-      let cur = ref (st, stack) in
-      (try
-         List.iter (fun (off, i) ->
-             if off <> !loc then begin
-               (* a row ends here: start + delta must stay inside the address size *)
-               let s = Z.add addr (Z.of_int !loc) and e = Z.add addr (Z.of_int off) in
-               if Z.gt e mask then raise (Cfi_err "AddressOverflow");
-               rows := show_row s e (fst !cur) :: !rows;
-               loc := off
-             end;
-             cur := step ~vendor ~init ~cap !cur i) f.finsns;
-         let s = Z.add addr (Z.of_int !loc) in
-         let e = Z.logand (Z.add addr (Z.of_int f.flen)) mask in
-         rows := show_row s e (fst !cur) :: !rows
-       with Cfi_err e -> rows := ("!" ^ e) :: !rows);
-      String.concat "|" (List.rev !rows)
+  let (rows, o) =
+    X.script_rows_lim heap_caps (vendor = 1) (n_of_int c.asz) (n_of_z addr) (n_of_int f.flen)
+      (List.map m_insn c.cinsns) (List.map (fun (o, i) -> (n_of_int o, m_insn i)) f.finsns) in
+  let tail = match o with
+    | CfaSpec.Done -> []
+    | CfaSpec.Fail e -> [ "!" ^ Errnames.name e ]
+    | CfaSpec.Crash -> [ "!panic" ]
+    | CfaSpec.Fuel -> [ "!outoffuel" ] in
+  String.concat "|" (List.map show_xrow rows @ tail)
 
 let show_ptr enc (a : Z.t) = (if enc land 0x80 <> 0 then "I" else "D") ^ Z.to_string a
 
@@ -576,7 +517,7 @@ let () =
     (fun ~seed ~n emit ->
       let r = mk_rng seed in
       for _ = 1 to n do sharp emit "c14.table" (rand_table r) done);
-  register "c14.rows" ~doc:"oracle: gimli's reader over gimli's bytes = CIE parameters, FDE ranges, personality/LSDA and unwind rows computed by a reference CFA machine from the script; entry sizes, nop-only padding, each referenced CIE once"
+  register "c14.rows" ~doc:"spec: gimli's reader over gimli's bytes = CIE parameters, FDE ranges, personality/LSDA and the unwind rows of the EXTRACTED script machine CfaScriptSpec.script_rows_lim (StoreOnHeap limits, reader vendor); entry sizes, nop-only padding, each referenced CIE once"
     (fun ~seed ~n emit ->
       let name = "c14.rows" in
       (* the instruction list of gimli's own test_frame_instruction, all encodings *)
@@ -598,6 +539,20 @@ let () =
                                       Cie c; Fde { fde0 with k = 1; faddr = Const (Z.of_int 0x50000); finsns = [ (0, INegateRa) ] } ] })
                         [ 0; 1 ]) [ false; true ]) [ false; true ]) [ 4; 8 ])
         [ (false, 1); (false, 3); (false, 4); (true, 1) ];
+      (* the reader context's storage limits reached and exceeded by one (script machine's xguard): remember_state
+         chains against the number of rules the CIE leaves (0..3: the saved initial rules take a row from 2 on);
+         191/192/193 distinct registers in the FDE and in the CIE *)
+      List.iter (fun ncie ->
+          for depth = 0 to 4 do
+            let c = { cie0 with asz = 8; daf = -8; cinsns = List.init ncie (fun j -> IOffset (j + 1, -8 * (j + 1))) } in
+            oracle_case emit name
+              (simple c { fde0 with finsns = List.init depth (fun j -> (4 * j, IRemember))
+                                             @ [ (4 * depth, IRestoreState); (4 * depth + 4, IRestore 1); (4 * depth + 4, IRestore 9) ] })
+          done) [ 0; 1; 2; 3 ];
+      List.iter (fun nreg ->
+          oracle_case emit name (simple { cie0 with asz = 8 } { fde0 with finsns = List.init nreg (fun j -> (j / 64, IUndefined (j + 100))) });
+          oracle_case emit name (simple { cie0 with asz = 8; cinsns = List.init nreg (fun j -> ISameValue (j + 100)) } fde0))
+        [ 191; 192; 193 ];
       let r = mk_rng seed in
       for _ = 1 to n do oracle_case emit name (rand_table ~valid:true r) done);
   (* ---- regressions of repaired findings, and the open one (see known_findings.txt) ---- *)
